@@ -24,6 +24,7 @@ const (
 	custTagged = slog.Level(25) // registered with tags and colours
 	custPlain  = slog.Level(26) // registered without tags and colours
 	custRaw    = slog.Level(33) // unregistered
+	custShort  = slog.Level(27) // registered without tags under a title shorter than most tag widths
 )
 
 // documented short tags of the built-in levels (slog/level.go), widths 1..5
@@ -116,6 +117,7 @@ func run(t vlib.TB, test string, sc scenario, thruAttrs slog.Attrs, args []any) 
 	}
 	_ = slog.RegisterLevel(custTagged, "notice", slog.RegWithShortTags(custTags), slog.RegWithColor(color.FgWhite, color.BgUnderline), slog.RegWithTreatedAsLevel(slog.InfoLevel))
 	_ = slog.RegisterLevel(custPlain, "plainlvl")
+	_ = slog.RegisterLevel(custShort, "zq")
 	flags := vlib.BaseFlags
 	if sc.Caller {
 		flags |= slog.Lcaller
@@ -343,7 +345,7 @@ func run(t vlib.TB, test string, sc scenario, thruAttrs slog.Attrs, args []any) 
 		nt = true
 	}
 	switch sc.Sev {
-	case custPlain, custRaw:
+	case custPlain, custRaw, custShort:
 		set["level-without-colour"] = true
 		nt = true
 	case custTagged:
@@ -468,7 +470,7 @@ func genLayoutValue() *rapid.Generator[vlib.Value] {
 
 func genScenario(t *rapid.T) (scenario, slog.Attrs, []any) {
 	var sc scenario
-	sevs := append(append([]slog.Level{}, vlib.Builtins...), custTagged, custPlain, custRaw)
+	sevs := append(append([]slog.Level{}, vlib.Builtins...), custTagged, custPlain, custRaw, custShort)
 	sc.Sev = rapid.SampledFrom(sevs).Filter(func(l slog.Level) bool { return l != slog.OffLevel }).Draw(t, "severity")
 	sc.TagW = rapid.SampledFrom([]int{3, 3, 1, 2, 4, 5}).Draw(t, "tagWidth")
 	sc.MsgW = rapid.SampledFrom([]int{36, 36, 16, 20, 48, 80}).Draw(t, "msgWidth")
